@@ -262,6 +262,53 @@ def run(ck):
             ck.fail("input", "oracle:delivery:slot-reuse", "after the server ended a connection with a partial APDU pending, the next connection on the slot delivered %d ASDUs closed=%s; its own stream contains %d deliverable ASDUs, closed=%s" % (
                 len(deliv), closed1, len(exp_d), exp_c), {"script": lines, "observed": [l for l in o["out"] if l[:2] in ("cb", "ev")]})
         ck.nontriv((sid, "reuse"))
+    # ---- client role at trace level: in-sequence I-frames whose N(S) runs across the 32767 -> 0 wrap (the receive counter is poked
+    #      to just below it), arbitrary segmentation: every ASDU is delivered exactly once, in order, the connection stays open;
+    #      a frame that repeats or skips a number ends it
+    from props import c03
+    hcli = c03.harnesses()[1]
+    cl_scripts, cmeta = [], {}
+    plc = lambda k: apci.asdu(200, 3, 1, bytes((i * 5 + k) & 255 for i in range(k)))
+    for vr0 in (0, 32763, 32766, 32767, 16383):
+        for bad in (None, "dup", "skip"):
+            frames, exp = [], []
+            n = 6
+            for j in range(n):
+                ns = (vr0 + j) % 32768
+                if bad == "dup" and j == 4:
+                    ns = (vr0 + j - 1) % 32768
+                if bad == "skip" and j == 4:
+                    ns = (vr0 + j + 1) % 32768
+                frames.append(apci.i_frame(ns, 0, plc(j + 1)))
+                if bad is None or j < 4:
+                    exp.append(plc(j + 1).hex())
+            data = b"".join(frames)
+            for ci, ch in enumerate(chunkings(rng, data, 4 if quick else 20, 2)):
+                sid = "cl.%d.%s.%d" % (vr0, bad, ci)
+                lines = ["cfg k=12 w=8 t1=15 t2=10 t3=20", "connect", "poke vs=0 vr=%d" % vr0, "startdt", "step", "rx " + apci.STARTDT_CON.hex(), "step"]
+                for c in ch:
+                    lines += ["rx " + c.hex(), "step %d" % (n + 2 if len(c) > 1 else 2)]
+                lines.append("step %d" % (n + 2))
+                cl_scripts.append((sid, lines)); cmeta[sid] = (vr0, bad, exp, [len(c) for c in ch])
+    rcl = runner.run_batch(hcli, cl_scripts)
+    ck.count("client_trace_scripts", len(cl_scripts))
+    for sid, lines in cl_scripts:
+        vr0, bad, exp, chl = cmeta[sid]
+        ck.evaluations += 1
+        o = rcl.get(sid, dict(out=[], crash=None))
+        if o["crash"]:
+            ck.fail("input", "crash:%s:%s" % (o["crash"]["kind"], o["crash"]["site"]), "client aborted: %s at %s" % (o["crash"]["kind"], o["crash"]["site"]),
+                    {"script": lines, "stderr": o["crash"]["text"], "harness": "h_cs104c"})
+            continue
+        body = o["out"][:max((i for i, l in enumerate(o["out"]) if l == "."), default=-1) + 1]      # what follows the last command marker is the tear-down
+        deliv = [l.split()[2] for l in body if l.startswith("cb asdu")]
+        closed = any(l.startswith(("ev CLOSED", "ev FAILED")) for l in body)
+        if deliv != exp or closed != (bad is not None):
+            ck.fail("input", "oracle:delivery:client", "client (receive counter %d at STARTDT, stream of 6 I-frames%s, split %s) delivered %d ASDUs closed=%s; reference: %d delivered closed=%s" % (
+                vr0, "" if bad is None else " with a %s number at the fifth" % ("repeated" if bad == "dup" else "skipped"), chl[:12], len(deliv), closed, len(exp), bad is not None),
+                {"script": lines, "observed": [l[:80] for l in o["out"] if l[:2] in ("cb", "ev")][-10:], "harness": "h_cs104c"})
+        if deliv:
+            ck.nontriv((sid, "client-trace"))
     for tag, d in by_stream.items():
         if len(d) > 1:
             ks = list(d.items())
@@ -269,7 +316,7 @@ def run(ck):
                 tag, [len(c) for c in ks[0][1][0][1]], [len(c) for c in ks[1][1][0][1]]), {"script_ids": [ks[0][1][0][0], ks[1][1][0][0]]})
     ck.extra["disagreements"] = ndiff
     ck.extra["exhaustive"] = False
-    ck.notes.append("client role at trace level is covered by the C03 check's client harness; here both roles are covered at the receiveMessage level")
+    ck.notes.append("client role: receiveMessage level on every cut position, plus trace-level streams across the receive-counter wrap on the real client (gated thread)")
 
 
 def replay(ck, path):
